@@ -231,6 +231,40 @@ def run(chk, ctx):
                T.show(attrs.get('value'))[:60],
                '; may raise %s' % raises[0].exc if raises else ''),
            site='pamqp/body.py')
+    # the three frame kinds keep their state in the object itself: nothing
+    # their constructors, encoders or decoders do writes a class-level or
+    # module-level object (two live headers must not share their octets)
+    from .c16 import shared_effects
+    chk.rule('C18.S', 'constructing, encoding and decoding a body, heartbeat '
+             'or protocol-header frame writes no class-level or module-level '
+             'object')
+    sh = []
+    for cshort, cargs in (('header.ProtocolHeader', ps),
+                          ('body.ContentBody', [pv]),
+                          ('heartbeat.Heartbeat', [])):
+        try:
+            ctx.constructed(cshort, cargs)
+        except AnalysisError:
+            continue
+        for e_ in shared_effects(ctx.last_interp):
+            sh.append('%s(): %s %s at %s' % (cshort, e_.kind,
+                                             str(e_.detail)[:40], e_.site))
+    for nm_, it_ in (('frame.unmarshal', f.it),):
+        for e_ in shared_effects(it_):
+            sh.append('%s: %s %s at %s' % (nm_, e_.kind,
+                                           str(e_.detail)[:40], e_.site))
+    for cshort, attrs_ in (
+            ('body.ContentBody', {'value': Sym('field', 'value')}),
+            ('heartbeat.Heartbeat', {}),
+            ('header.ProtocolHeader',
+             {k: Sym('field', k) for k in names})):
+        _v, it_, _o = marshal_of(cshort, attrs_)
+        for e_ in shared_effects(it_):
+            sh.append('frame.marshal(%s): %s %s at %s' % (
+                cshort, e_.kind, str(e_.detail)[:40], e_.site))
+    chk.ob('C18.S', 'state of the three frame kinds', not sh,
+           '7 abstract runs, no write to shared objects' if not sh else
+           '; '.join(sorted(set(sh))[:3]))
     composed(chk, ctx, f, marshal_of)
     chk.floor('C18.B', 7, 'body facts')
     chk.floor('C18.V', 3, 'protocol header facts')
